@@ -57,13 +57,16 @@ def build_msg(m, devs, futs):
     if cmd in ("install_suspender", "remove_suspender"):
         args = [SUSPENDERS[args[0]]]
     if cmd == "subscribe":
-        args = [(lambda name, doc: None), "all"]      # Msg('subscribe', None, func, 'all'): a fresh per-call consumer
+        args = [CUR_REC[0].tmp_consumer(), "all"]      # Msg('subscribe', None, func, 'all'): a fresh consumer that logs what reaches it
+    if cmd == "unsubscribe":
+        args = [-1]                                    # (replaced by the token of the plan's latest subscription when it is yielded)
     if cmd == "declare_stream":
         args, obj = [obj], None          # Msg('declare_stream', None, obj, name=...)
     return Msg(cmd, obj, *args, run=run, **kwargs)
 
 
 RUN_KEY_MAP = {}    # program run key -> python run key of the scenario being run (option run_key_wrapper)
+CUR_REC = [None]    # recorder of the scenario being run (in-plan document consumers log through it)
 SUSPENDERS = {}     # name -> suspender object of the scenario being run (Msg('install_suspender', None, <object>))
 
 
@@ -78,11 +81,19 @@ def make_program_plan(prog, devs, futs):
     c0, c1 = prog.get("cleanup", [0, -1])
     raise_at = prog.get("raise_at", 0)     # the plan itself raises PlanErr instead of yielding message raise_at
 
+    tokens = []     # tokens the plan received for its own subscriptions and has not handed back yet
+
     def seg(a, b):
+        from bluesky import Msg
         for i in range(a, b + 1):
             if i == raise_at:
                 raise PlanErr(f"plan raised at {i}")
-            yield msgs[i - 1]
+            m = msgs[i - 1]
+            if m.command == "unsubscribe":
+                m = Msg("unsubscribe", None, tokens.pop() if tokens else -1)
+            r = yield m
+            if m.command == "subscribe":
+                tokens.append(r)
 
     def plan():
         if kind == "none":
@@ -116,6 +127,7 @@ class Scenario:
         from bluesky import RunEngine
         from bluesky.utils import DuringTask, RunEngineInterrupted
         sc, rec, loop = self.sc, self.rec, self.loop
+        CUR_REC[0] = rec
         D.reset_sids()
         opts = sc.get("options", {})
         RE = RunEngine(dict(opts.get("md", {})), loop=loop, context_managers=[], during_task=DuringTask())
